@@ -52,6 +52,21 @@ mparallel:= {"kind": "parallel", "path": [i], "tasks": [mleaf, ...], "clients_ca
 "path" locates the element in the spec (and in build_schedule(spec)) so that oracles can speak about object identity.
 
 Names never contain ':' or ',' (a filter "a:b" is a type/tag filter, and CSV splitting happens on ','), and no task is called "any".
+Some task names are deliberately related: "<earlier name>-b" (an earlier name is a proper prefix) and the case-swapped earlier name.
+
+KNOBS of schedule_specs (all keyword-only): min_elements / max_elements (1 / 5), max_parallel_tasks (4), max_clients (5), max_ops (4, size
+of the operation pool the tasks draw from), op_types, op_styles, tags, p_parallel (per cent of parallel elements, 45; 100 = only parallel
+elements), parallel / caps / completed_by / inherit / time_based / iteration_based / ramp_up / throughput / schedule_names / meta /
+default_names (switch a feature off with False), op_suffix (appended to generated operation names; keeps operation names unique when
+several schedules end up in one track).
+
+HELPERS: is_parallel(el), leaves(spec_or_model), resolved_name(leaf), leaf_json(leaf), op_json(op), op_model(op),
+target_throughput_model(leaf), object_at(schedule, path), filter_matches(filter, mleaf), parallels_emptied_by(model, mode, filters).
+
+Typical use:
+    spec = draw(schedule_specs(max_elements=3, op_types=("sim-op",), op_styles=("inline",)))
+    schedule = build_schedule(spec)          # hand to driver.Allocator / a Challenge
+    m = model(spec)                          # what the oracle reasons about; object_at(schedule, m[i]["path"]) is the real object
 """
 from __future__ import annotations
 
